@@ -246,6 +246,10 @@ func c03Start(inst *c03Inst, b *vfBrowser, bi int, kind, id string) (*c03Login, 
 	switch kind {
 	case "protected":
 		target = fmt.Sprintf("/app/p%d/page?item=%d", n, n)
+		if n%2 == 1 {
+			// the state is "nonce:redirect": a redirect that itself contains ':' must not confuse the split (round 6)
+			target = fmt.Sprintf("/app/p%d/v1:beta/page?item=%d&at=10:30:00", n, n)
+		}
 		resp := b.Get(inst.P, target)
 		if resp.Code == 200 {
 			// the browser already holds a session (an earlier login of the history completed): the protected URL is simply
@@ -266,6 +270,14 @@ func c03Start(inst *c03Inst, b *vfBrowser, bi int, kind, id string) (*c03Login, 
 		l, err = b.continueLogin(inst.P, ident, resp)
 	default:
 		rd := fmt.Sprintf("/app/s%d?x=%d", n, n)
+		switch n % 4 {
+		case 1:
+			rd = fmt.Sprintf("/app/s%d?from=09:00&x=%d", n, n)
+		case 2:
+			rd = fmt.Sprintf("/app/s%d/rev:2:draft?x=%d", n, n)
+		case 3:
+			rd = fmt.Sprintf("/app/s%d?u=a%%3Ab&z=1:2&x=%d", n, n)
+		}
 		target = inst.P.Opts.ProxyPrefix + "/start?rd=" + vfQueryEscape(rd)
 		l, err = b.StartLogin(inst.P, ident, rd)
 	}
